@@ -244,6 +244,8 @@ func runC01(c *Ctx) {
 	c.Note("bound_k_positions", fmt.Sprint(k))
 	weakenAlts = 3
 	c.Note("alt_concretisations_per_weakening", fmt.Sprint(weakenAlts))
+	// history clause first, so that each worker process meets it in its initial state
+	histFamily(c, "Length of unknown collections with boundary length bounds", c01HistoryOps)
 	c01Cases(c.Thorough, func(oc opCase) {
 		c.Unit(func(u *U) {
 			op := oc.op
@@ -376,4 +378,82 @@ func exactArith(name string, args []cty.Value) (cty.Value, bool) {
 		return cty.NilVal, false
 	}
 	return cty.NumberVal(r), true
+}
+
+// boundaryInts: sizes around powers of two (table sizes, pre-allocation caps, small-case fast
+// paths are drawn there), shared by the history families.
+var boundaryInts = []int{0, 1, 2, 3, 4, 5, 7, 8, 9, 15, 16, 17, 31, 32, 33, 63, 64, 65, 127, 128, 129, 255, 256, 257, 1023, 1024, 1025}
+
+// c01HistoryOps: operations on unknown collections whose length bounds range over boundaryInts
+// (and "no upper bound"), each judged by the property's own oracle: the result of Length on a
+// placeholder admitting collections of n elements must admit n; Equals / HasIndex against known
+// operands must not exclude what a concretisation would give.
+func c01HistoryOps() []histOp {
+	var ops []histOp
+	tys := []cty.Type{cty.List(cty.String), cty.Set(cty.Number), cty.Map(cty.Bool)}
+	for ti, ty := range tys {
+		ty := ty
+		bs := boundaryInts
+		if ti > 0 {
+			bs = []int{0, 1, 2, 7, 8, 9, 16, 1024}
+		}
+		for _, lo := range bs {
+			for ui := -1; ui < len(bs); ui++ {
+				lo, hi := lo, -1
+				if ui >= 0 {
+					hi = bs[ui]
+					if hi < lo {
+						continue
+					}
+				}
+				mk := func() cty.Value {
+					b := cty.UnknownVal(ty).Refine().NotNull()
+					if lo > 0 {
+						b = b.CollectionLengthLowerBound(lo)
+					}
+					if hi >= 0 {
+						b = b.CollectionLengthUpperBound(hi)
+					}
+					return b.NewValue()
+				}
+				var last cty.Value
+				desc := fmt.Sprintf("Length(unknown %s, not null, length %d..", ty.FriendlyName(), lo)
+				if hi >= 0 {
+					desc += fmt.Sprint(hi) + ")"
+				} else {
+					desc += "unbounded)"
+				}
+				probes := []int{lo, lo + 1, lo + 2, (lo + 9)}
+				if hi >= 0 {
+					probes = append(probes, hi, hi-1, (lo+hi)/2)
+				} else {
+					probes = append(probes, lo+1000, 1<<31, 1<<40)
+				}
+				ops = append(ops, histOp{
+					desc: desc,
+					run: func() string {
+						last = cty.NilVal
+						last = mk().Length()
+						return goStr(last)
+					},
+					oracle: func(out string) string {
+						if last == cty.NilVal {
+							return "the call was rejected although Length of any concrete collection succeeds"
+						}
+						for _, n := range probes {
+							if n < lo || (hi >= 0 && n > hi) {
+								continue
+							}
+							if ok, why := admits(last, cty.NumberIntVal(int64(n))); !ok {
+								return fmt.Sprintf("the placeholder admits collections of %d elements, whose Length is %d, which this result excludes (%s)", n, n, why)
+							}
+						}
+						return ""
+					},
+					perturbing: lo <= 1 && (hi < 0 || hi == 8 || hi == 16 || hi == 1024 || hi == 0),
+				})
+			}
+		}
+	}
+	return ops
 }
